@@ -673,7 +673,7 @@ def control_flow_family(rng: vlib.Rng, quick: bool) -> tuple[str, list[str]]:
     rest = [c for c in combos if c not in core]
     rng.shuffle(rest)
     rng.shuffle(core)
-    chosen = (core[:14] + rest[:16]) if quick else combos
+    chosen = (core[:14] + rest[:12]) if quick else combos
     src, names = [], []
     for c in chosen:
         fin, ta, xa, ea, fa = c
@@ -1207,7 +1207,7 @@ def _run_diff(ctx: vlib.Ctx, hiers: list, tmp: str) -> None:
     sets = []
     for i in range(nsets):
         hs = interesting[i * ctx.n(6, 12):(i + 1) * ctx.n(6, 12)]
-        sets.append(make_set(rng, i, hs, ctx.n(14, 80), hist, ctx.quick))
+        sets.append(make_set(rng, i, hs, ctx.n(10, 80), hist, ctx.quick))
     jobs: list[tuple[str, Any, dict]] = []
     for s in sets:
         cfgs = CONFIGS if not ctx.quick else ([CONFIGS[1], CONFIGS[3]] if s["idx"] % 2 == 0 else [CONFIGS[0], CONFIGS[2]])
